@@ -21,7 +21,6 @@ require (
 	github.com/cockroachdb/redact v1.1.5 // indirect
 	github.com/cockroachdb/tokenbucket v0.0.0-20230807174530-cc333fc44b06 // indirect
 	github.com/fsnotify/fsnotify v1.5.4 // indirect
-	github.com/fxamacker/cbor/v2 v2.7.0 // indirect
 	github.com/getsentry/sentry-go v0.27.0 // indirect
 	github.com/gogo/protobuf v1.3.2 // indirect
 	github.com/golang/protobuf v1.5.3 // indirect
@@ -68,6 +67,7 @@ replace github.com/linxGnu/grocksdb => /verif/stubs/grocksdb
 replace github.com/tinylib/msgp => github.com/0chain/msgp v1.1.62
 
 require (
+	github.com/fxamacker/cbor/v2 v2.7.0
 	github.com/linxGnu/grocksdb v1.8.0
 	golang.org/x/crypto v0.7.0
 	verif/simrt v0.0.0
